@@ -19,6 +19,7 @@ use passage_packets::{
     WritePacket,
 };
 use serde_json::{Value, json};
+use std::collections::BTreeMap;
 use std::fmt::Debug;
 use std::io::Cursor;
 use uuid::Uuid;
@@ -32,6 +33,30 @@ pub struct Ctx<'a> {
     pub rep: &'a mut Report,
     /// write this case out as a sample (inputs + observed trace)
     pub sample: bool,
+    /// per packet type / enum field: cases executed (flushed into the report by `flush`)
+    pub counts: BTreeMap<(&'static str, String), u64>,
+}
+
+impl<'a> Ctx<'a> {
+    pub fn new(rep: &'a mut Report, sample: bool) -> Ctx<'a> {
+        Ctx { rep, sample, counts: BTreeMap::new() }
+    }
+    fn tally(&mut self, kind: &'static str, name: &str) {
+        if let Some(n) = self.counts.iter_mut().find(|((k, n), _)| *k == kind && n == name) {
+            *n.1 += 1;
+        } else {
+            self.counts.insert((kind, name.to_string()), 1);
+        }
+    }
+    pub fn flush(&mut self) {
+        for ((kind, name), n) in std::mem::take(&mut self.counts) {
+            if kind == "packet" {
+                self.rep.count(&format!("packet {name}: values written, compared with the reference bytes and read back"), n);
+            } else {
+                self.rep.count(&format!("enum {name}: ordinals fed to the crate's reader"), n);
+            }
+        }
+    }
 }
 
 // ---------------------------------------------------------------------------------------------
@@ -287,8 +312,8 @@ where
     M: Fn(&T) -> Pkt,
 {
     let name = wire.name();
+    cx.tally("packet", name);
     let rep = &mut *cx.rep;
-    rep.count(&format!("packet {name}: values written, compared with the reference bytes and read back"), 1);
     let ref_body = wire.body();
     let sample = cx.sample;
     let mut trace = serde_json::Map::new();
@@ -702,8 +727,8 @@ where
     M: Fn(&T) -> Pkt,
 {
     let body = wire.body();
+    cx.tally("enum", field);
     let rep = &mut *cx.rep;
-    rep.count(&format!("enum {field}: ordinals fed to the crate's reader"), 1);
     let sample = cx.sample;
     let mut observed = String::new();
     match read_with::<T>(&body) {
